@@ -39,7 +39,8 @@ func (c *ConfirmCache) Push(data *BlockConfirmData) {
 	c.cache[data.Height][data.Hash] = append(c.cache[data.Height][data.Hash], data)
 
 	if len(c.cache) > 10240 {
-		c.Clear(^uint32(0))
+		// drop everything; Clear() takes c.lock, which is already held here
+		c.cache = make(map[uint32]blockConfirms)
 	}
 }
 
@@ -135,7 +136,8 @@ func (c *BlockCache) Add(block *types.Block) {
 	}
 
 	if len(c.cache) > 10240 {
-		c.Clear(^uint32(0))
+		// drop everything; Clear() takes c.lock, which is already held here
+		c.cache = c.cache[:0]
 	}
 }
 
